@@ -60,7 +60,9 @@ def sem_of_registry(u, names, spellings, dims=()):
 class Check(Property):
     ID = "C10"
     PROPS_FILE = "PintModel/Props/C10.lean"
-    MODULE = "PintModel.Props.C10"
+    MODULE = "PintModel.Props.C10Load"
+    EXTRA_PROPS_FILES = ["PintModel/Props/C10Load.lean"]
+    EXTRA_LEAN_FILES = ["PintModel/Proofs/LoadLemmas.lean"]
     RULE = ("(a) every key of the default registry's unit/prefix/dimension tables against the tables the translator "
             "generates for the Lean model (exhaustive); (b) generated definition files (random DAG of units, "
             "prefixes, aliases, symbols, derived dimensions, offset units, groups, a system), each loaded as a list "
@@ -121,9 +123,52 @@ class Check(Property):
                 self.bump("generated." + var)
                 out.append({"kind": "gen", "file": i, "variant": var, "text": txt, "names": names, "spellings": spellings,
                             "seed": rng.getrandbits(32), "ops": ops, "lines": [l for _, l in g.lines], "dims": dimnames})
+        # the hypotheses of the order-independence theorems (Props/C10Load.lean): lists of lines with clashing
+        # spellings, written delta_ units next to automatic companions, alias lines before / after their unit —
+        # loaded in the order given, every key probed: the model's "later line wins" must be pint's
+        for lines, keys in self.order_cases(rng, 12 if self.tier == "quick" else 400):
+            try:
+                recs = D.read_lines(lines)
+            except D.DefError:
+                continue
+            self.bump("order/clash")
+            ops = [{"op": "load", "defs": self.defs_json(recs)}] + [{"op": "unit_def", "s": k} for k in keys] + [{"op": "reset"}]
+            out.append({"kind": "order", "lines": lines, "keys": keys, "ops": ops})
         for label, snippet in MALFORMED:
             self.bump("malformed")
             out.append({"kind": "malformed", "label": label, "snippet": snippet, "ops": []})
+        return out
+
+    FIXED_ORDER = [
+        (["ma = [la]", "degC = ma; offset: 273", "delta_degC = 2 * ma"], ["delta_degC", "degC"]),
+        (["ma = [la]", "delta_degC = 2 * ma", "degC = ma; offset: 273"], ["delta_degC", "degC"]),
+        (["meter = [length] = m", "mile = 1609 * meter = m"], ["m", "meter", "mile"]),
+        (["mile = 1609 * meter = m", "meter = [length] = m"], ["m", "meter", "mile"]),
+        (["meter = [length] = m", "@alias meter = metre"], ["metre", "meter"]),
+        (["@alias meter = metre", "meter = [length] = m"], ["metre", "meter"]),
+    ]
+
+    def order_cases(self, rng, n):
+        out = [(list(l), list(k)) for l, k in self.FIXED_ORDER]
+        syms = ["s1", "s2", "s3"]
+        for _ in range(n):
+            lines = ["ba = [da] = " + rng.choice(syms + ["_"])]
+            names = ["ba"]
+            for i in range(rng.randint(2, 5)):
+                nm = rng.choice(["ua", "ub", "uc", "delta_ua", "delta_ub"])
+                ref = rng.choice(names)
+                l = f"{nm} = {rng.randint(2, 9)} * {ref}"
+                if rng.random() < 0.4 and not nm.startswith("delta_"):
+                    l += f"; offset: {rng.randint(1, 5)}"
+                l += " = " + rng.choice(syms + ["_", "_"])
+                if rng.random() < 0.4:
+                    l += " = " + rng.choice(["al1", "al2", "ua", "ub"])
+                lines.append(l)
+                names.append(nm)
+            if rng.random() < 0.3:
+                lines.insert(rng.randrange(len(lines) + 1), "@alias " + rng.choice(names) + " = " + rng.choice(["al1", "al3"]))
+            keys = sorted(set(names + syms + ["al1", "al2", "al3", "delta_ua", "delta_ub", "delta_uc"]))
+            out.append((lines, keys))
         return out
 
     def defs_json(self, recs):
@@ -270,6 +315,28 @@ class Check(Property):
                             "base_units": sorted(u._base_units)}}]
         if k == "malformed":
             return []
+        if k == "order":
+            import pint
+            logging.disable(logging.CRITICAL)
+            try:
+                try:
+                    r = pint.UnitRegistry(None, non_int_type=Fraction)
+                    r.load_definitions(list(c["lines"]))
+                except Exception as exc:  # noqa: BLE001
+                    return [{"load-error": type(exc).__name__}]
+                res = []
+                for key in c["keys"]:
+                    d = r._units.get(key)
+                    if d is None:
+                        res.append(None)
+                    else:
+                        conv = d.converter
+                        res.append([d.name, d.symbol, sorted(d.aliases), frac_s(Fraction(conv.scale)),
+                                    frac_s(Fraction(getattr(conv, "offset", 0))),
+                                    sorted([a, frac_s(regs.to_frac(b))] for a, b in d.reference.items())])
+                return [res]
+            finally:
+                logging.disable(logging.NOTSET)
         logging.disable(logging.CRITICAL)
         try:
             reg_ = self.load_variant(c)
@@ -285,6 +352,19 @@ class Check(Property):
         if k == "tables":
             o = mo[0]["ok"]
             return [{"ok": {kk: sorted(v) for kk, v in o.items()}}]
+        if k == "order":
+            if "ok" not in mo[0]:
+                return [{"load-error": "model"}]
+            res = []
+            for r in mo[1:1 + len(c["keys"])]:
+                if "ok" not in r:
+                    res.append(None)
+                else:
+                    o = r["ok"]
+                    cv = o["conv"]
+                    res.append([o["name"], o["symbol"], sorted(o["aliases"]), cv.get("scale"), cv.get("offset", "0/1") if cv.get("kind") == "offset" else frac_s(Fraction(0)),
+                                sorted(o["ref"])])
+            return [res]
         if k != "gen":
             return mo
         # fold the model's answers into the same 'sem' shape
@@ -310,6 +390,10 @@ class Check(Property):
         k = c["kind"]
         if k == "malformed":
             return True
+        if k == "order":
+            if isinstance(io[0], dict) or isinstance(mo[0], dict):
+                return isinstance(io[0], dict) and isinstance(mo[0], dict)
+            return canon(io) == canon(mo)
         if k == "gen":
             if "load-error" in io[0]:
                 return False
@@ -354,6 +438,8 @@ class Check(Property):
             return f"{c['file']}:{c['variant']}"
         if c["kind"] == "malformed":
             return "mal:" + c["label"]
+        if c["kind"] == "order":
+            return "order:" + "|".join(c["lines"])
         return c["kind"] + ":" + str(c.get("s"))
 
     # ------------------------------------------------------------------ oracle
